@@ -958,3 +958,387 @@ def chunkings(r, items, data, quick=True):
 
 def ccls(n):
     return n if n <= 4 else (8 if n <= 8 else (64 if n <= 64 else 999))
+
+
+# =============================================================================
+# sections on the bare connection
+# =============================================================================
+
+
+def short_alphabet(rt):
+    """Tiny messages (2-5 bytes, one 11-byte one) for the exhaustive chunking sweep."""
+    F = rt.Frame
+    a = {}
+
+    def add(name, it):
+        it.name = name
+        a[name] = it
+
+    add("csm", frame_item(rt, F(rt.CSM, b"", (), b"")))
+    add("csm-mms", frame_item(rt, F(rt.CSM, b"", ((2, b"\x04\x80"),), b"")))
+    add("csm-el", frame_item(rt, F(rt.CSM, b"", ((6, b""),), b""), elective="utf8"))
+    add("csm-crit", frame_item(rt, F(rt.CSM, b"", ((1, b""),), b"")))
+    add("get", frame_item(rt, F(1, b"\xa1", (), b"")))
+    add("getp", frame_item(rt, F(1, b"\xa2", ((11, b"a"),), b"")))
+    add("post", frame_item(rt, F(2, b"", (), b"hi")))
+    add("r205", frame_item(rt, F(69, b"\xb1", (), b"h")))
+    add("r404", frame_item(rt, F(132, b"", (), b"")))
+    add("empty", frame_item(rt, F(0, b"", (), b"")))
+    add("emptyx", frame_item(rt, F(0, b"\xaa", (), b"")))
+    add("ping", frame_item(rt, F(rt.PING, b"", (), b"")))
+    add("pingt", frame_item(rt, F(rt.PING, b"\xc1", (), b"")))
+    add("pong", frame_item(rt, F(rt.PONG, b"", (), b"")))
+    add("rel", frame_item(rt, F(rt.RELEASE, b"", (), b"")))
+    add("abt", frame_item(rt, F(rt.ABORT, b"", (), b"")))
+    add("bad-overrun", Item("bad", bytes.fromhex("1001b5"), cls="option-overruns-frame"))
+    add("bad-nib", Item("bad", bytes.fromhex("1001f0"), cls="option-nibble-15"))
+    add("bad-ext", Item("bad", bytes.fromhex("1001d0"), cls="option-ext-truncated"))
+    add("bad-utf8", Item("bad", bytes.fromhex("2001b1ff"), cls="non-utf8-string-option"))
+    add("bad-tkl9", Item("bad", bytes.fromhex("0901" + "11" * 9), cls="tkl-above-8"))
+    assert a["csm-crit"].kind == "sigcrit" and a["emptyx"].kind == "emptyx" and a["empty"].data == b"\x00\x00"
+    return a
+
+
+def short_streams(alpha, tier):
+    names = list(alpha)
+    seqs = [[x] for x in names]
+    seqs += [[x, y] for x in names for y in names]
+    seqs += [["csm", x, y] for x in names for y in names]
+    if tier == "thorough":
+        seqs += [[x, y, z] for x in names for y in names for z in names if x != "csm"]
+    out = []
+    for s in seqs:
+        if 2 <= sum(len(alpha[n].data) for n in s) <= 12:
+            out.append(s)
+    return out
+
+
+class Sections:
+    def __init__(self, env, shard, only=None):
+        self.env = env
+        self.rep = env.rep
+        self.rt = env.rt
+        self.shard = shard
+        self.only = only
+        self.quick = shard.get("tier", "quick") == "quick"
+        self.alpha = short_alphabet(env.rt)
+
+    def rng(self, *parts):
+        return random.Random("%d/%s" % (self.shard["seed"], "/".join(str(p) for p in parts)))
+
+    def mine(self, i):
+        return i % self.shard["of"] == self.shard["index"]
+
+    # -- one stream, several chunkings ---------------------------------------------------
+    def run_stream(self, section, role, items, chunk_list, case_base, only_ci=None, sample=False):
+        env = self.env
+        rep = self.rep
+        exp = analyse(items)
+        isig = tuple(item_sig(it) for it in items)
+        for ci, (ccl, chunks) in enumerate(chunk_list):
+            if only_ci is not None and ci != only_ci:
+                continue
+            rig = Rig(env, role)
+            rig.feed(chunks)
+            outcome = judge(env, rig, items, exp, case_base + [ci], chunks, section)
+            rep.case((section, role, isig, ccl, ccls(len(chunks)), outcome), nontrivial=exp.nontrivial or len(chunks) > 1)
+            rep.count("outcome_" + outcome)
+        if sample:
+            rep.sample({"section": section, "role": role, "items": [it.brief() for it in items], "expected_stop": exp.stop, "chunkings": [c for c, _ in chunk_list]})
+
+    # -- exhaustive chunkings of short streams -----------------------------------------
+    def short_one(self, role, names, only_mask=None):
+        items = [self.alpha[n] for n in names]
+        data = b"".join(it.data for it in items)
+        n = len(data)
+        env = self.env
+        rep = self.rep
+        exp = analyse(items)
+        isig = tuple(names)
+        masks = range(1 << (n - 1)) if only_mask is None else [only_mask]
+        for mask in masks:
+            chunks = chunk_mask(data, mask)
+            rig = Rig(env, role)
+            rig.feed(chunks)
+            outcome = judge(env, rig, items, exp, ["short", role, names, mask], chunks, "short")
+            rep.case(("short", role, isig, len(chunks), outcome), nontrivial=True)
+        rep.count("short_streams_fully_chunked")
+
+    def short(self):
+        streams = short_streams(self.alpha, self.shard.get("tier", "quick"))
+        self.rep.seen("short_stream_count", len(streams))
+        k = 0
+        for si, names in enumerate(streams):
+            for role in ("server", "client"):
+                k += 1
+                if self.mine(k):
+                    self.short_one(role, names)
+        self.rep.sample({"section": "short", "example_stream": streams[len(streams) // 2], "alphabet": {n: it.data.hex() for n, it in self.alpha.items()}})
+
+    # -- random sequences ---------------------------------------------------------------------
+    def gen_seq(self, r):
+        rt = self.rt
+        items = []
+        big_left = 1
+        if r.random() < 0.9:
+            items.append(gen_csm(rt, r, elective=r.random() < 0.15))
+        n = r.choice([1, 2, 3, 4, 6, 10])
+        stop_at = r.randrange(n + 1) if r.random() < 0.4 else None
+        for i in range(n):
+            if stop_at == i:
+                k = r.random()
+                if k < 0.7:
+                    items.append(gen_bad(rt, r, r.choice(BAD_CLASSES)))
+                else:
+                    items.append(gen_signal(rt, r, r.choice([rt.RELEASE, rt.ABORT]), elective=r.random() < 0.2))
+            k = r.random()
+            if k < 0.55:
+                it = gen_message(rt, r)
+                if len(it.data) > 60000:
+                    if big_left == 0:
+                        it = gen_message(rt, r, L=r.choice([0, 12, 13, 268, 269]))
+                    else:
+                        big_left -= 1
+                items.append(it)
+            elif k < 0.68:
+                items.append(gen_signal(rt, r, rt.PING, elective=r.random() < 0.15))
+            elif k < 0.73:
+                items.append(gen_signal(rt, r, rt.PONG, elective=r.random() < 0.15))
+            elif k < 0.85:
+                items.append(frame_item(rt, rt.Frame(0, b"", (), b"")))
+            elif k < 0.92:
+                items.append(gen_csm(rt, r, elective=r.random() < 0.3))
+            elif k < 0.95:
+                items.append(frame_item(rt, rt.Frame(0, gen_token(r) or b"\x01", (), r.choice([b"", b"x"]))))
+            else:
+                items.append(gen_message(rt, r, L=r.choice([0, 1, 12, 13])))
+        return items
+
+    def seq_one(self, role, i, only_ci=None):
+        r = self.rng("seq", i)
+        items = self.gen_seq(r)
+        data = b"".join(it.data for it in items)
+        self.run_stream("seq", role, items, chunkings(r, items, data, self.quick), ["seq", role, i], only_ci, sample=(i < 2 and role == "server"))
+
+    def seq(self):
+        n = 60 if self.quick else 9000
+        for j in range(n):
+            i = self.shard["index"] + j * self.shard["of"]
+            for role in ("server", "client"):
+                self.seq_one(role, i)
+
+    # -- body-length grid ------------------------------------------------------------------------
+    def len_one(self, role, L, tkl, kind, mode, only_ci=None):
+        rt = self.rt
+        r = self.rng("len", L, tkl, kind, mode)
+        code = r.choice(REQ_CODES if kind == "req" else RESP_CODES)
+        opts, payload = body_for_length(rt, r, L, mode)
+        msg = frame_item(rt, rt.Frame(code, r.randbytes(tkl), opts, payload))
+        assert len(rt.encode_body(opts, payload)) == L
+        items = [self.alpha["csm"], msg, self.alpha["getp"]]
+        data = b"".join(it.data for it in items)
+        self.run_stream("len", role, items, chunkings(r, items, data, self.quick), ["len", role, L, tkl, kind, mode], only_ci)
+        self.rep.seen("body_lengths_received", L)
+
+    def lengths(self):
+        k = 0
+        for L in BODY_LENGTHS:
+            for tkl in (0, 1, 8):
+                for kind in ("req", "resp"):
+                    for mode in ("payload", "mixed", "options"):
+                        for role in ("server", "client"):
+                            k += 1
+                            if self.mine(k):
+                                self.len_one(role, L, tkl, kind, mode)
+
+    # -- malformed frames at every position -----------------------------------------------------
+    def badpos_one(self, role, cls, pos, v, only_ci=None):
+        rt = self.rt
+        r = self.rng("badpos", cls, pos, v)
+        base = [gen_csm(rt, r), gen_message(rt, r, kind="req", L=r.choice([0, 5, 13, 300])), gen_message(rt, r, kind="resp", L=r.choice([0, 12, 269])), gen_signal(rt, r, rt.PING), gen_message(rt, r, kind="req", L=r.choice([1, 14]))]
+        bad = gen_bad(rt, r, cls)
+        items = base[:pos] + [bad] + base[pos:]
+        data = b"".join(it.data for it in items)
+        self.run_stream("badpos", role, items, chunkings(r, items, data, self.quick), ["badpos", role, cls, pos, v], only_ci, sample=(pos == 2 and v == 0 and role == "server" and cls == "option-overruns-frame"))
+
+    def badpos(self):
+        k = 0
+        for cls in BAD_CLASSES:
+            for pos in range(6):
+                for v in range(2 if self.quick else 150):
+                    for role in ("server", "client"):
+                        k += 1
+                        if self.mine(k):
+                            self.badpos_one(role, cls, pos, v)
+
+    # -- signalling option sweep ---------------------------------------------------------------
+    def sigopt_one(self, role, code, number, vi, only_ci=None):
+        rt = self.rt
+        value = VALUE_SHAPES[vi]
+        known = {rt.CSM: [(2, b"\x10\x00\x00"), (4, b"")], rt.PING: [], rt.PONG: [], rt.RELEASE: [(4, b"\x05")], rt.ABORT: [(2, b"\x03")]}[code]
+        opts = tuple(sorted(known + [(number, value)], key=lambda o: o[0]))
+        el = None if number & 1 else ("utf8" if is_utf8(value) else "non-utf8")
+        token = b"\x77" if code in (rt.PING, rt.PONG) else b""
+        sig = frame_item(rt, rt.Frame(code, token, opts, b""), elective=el)
+        items = [self.alpha["csm"], sig, self.alpha["getp"]]
+        data = b"".join(it.data for it in items)
+        cl = [("whole", [data]), ("single", [data[i : i + 1] for i in range(len(data))]), ("per-frame", chunk_cuts(data, [2, 2 + len(sig.data)]))]
+        self.run_stream("sigopt", role, items, cl, ["sigopt", role, code, number, vi], only_ci)
+
+    def sigopt(self):
+        rt = self.rt
+        k = 0
+        for code in (rt.CSM, rt.PING, rt.PONG, rt.RELEASE, rt.ABORT):
+            for number in ELECTIVE_NUMBERS + CRITICAL_NUMBERS:
+                for vi in range(len(VALUE_SHAPES)):
+                    for role in ("server", "client"):
+                        k += 1
+                        if self.mine(k):
+                            self.sigopt_one(role, code, number, vi)
+
+    # -- frames around the advertised Max-Message-Size -----------------------------------------
+    OVERSIZE_VARIANTS = ["at-max", "max+1", "max+1-tkl8", "max+1-tkl0-late", "max+1-first", "max+4096"]
+
+    def oversize_one(self, role, variant, v, only_ci=None):
+        rt = self.rt
+        env = self.env
+        r = self.rng("oversize", variant, v)
+        if role not in env.local_max:
+            Rig(env, role)
+        mx = env.local_max[role]
+        if mx < 70000 or mx > (1 << 26):
+            self.rep.inconc("advertised Max-Message-Size %d is outside the range the oversize generator handles" % mx)
+            return
+        csm = gen_csm(rt, r)
+        g1 = gen_message(rt, r, kind="req", L=r.choice([0, 13]))
+        g2 = self.alpha["getp"]
+        if variant == "at-max":
+            fr, data = gen_oversize(rt, r, mx)
+            items = [csm, g1, Item("req" if rt.is_request(fr.code) else "resp", data, fr), g2]
+        else:
+            total = mx + (4096 if variant == "max+4096" else 1)
+            tkl = 8 if "tkl8" in variant else (0 if "tkl0" in variant else None)
+            fr, data = gen_oversize(rt, r, total, tkl=tkl)
+            big = Item("bad", data, cls="oversize")
+            items = {"max+1-first": [big, csm, g2], "max+1-tkl0-late": [csm, g1, g2, self.alpha["ping"], big]}.get(variant, [csm, g1, big, g2])
+        stream = b"".join(it.data for it in items)
+        starts = []
+        p = 0
+        for it in items:
+            starts.append(p)
+            p += len(it.data)
+        bigstart = starts[[i for i, it in enumerate(items) if len(it.data) > 70000][0]]
+        cl = [("whole", [stream])]
+        cuts = set(range(bigstart, bigstart + 12))
+        cuts.update(range(bigstart + 12, len(stream), 65536))
+        cl.append(("header-single", chunk_cuts(stream, cuts)))
+        cl.append(("random", chunk_cuts(stream, [r.randrange(1, len(stream)) for _ in range(4)] + [len(stream) - 1])))
+        self.run_stream("oversize", role, items, cl, ["oversize", role, variant, v], only_ci)
+
+    def oversize(self):
+        k = 0
+        for v in range(1 if self.quick else 12):
+            for variant in self.OVERSIZE_VARIANTS:
+                for role in ("server", "client"):
+                    k += 1
+                    if self.mine(k):
+                        self.oversize_one(role, variant, v)
+
+    # -- (b) outgoing serialisation ----------------------------------------------------------------
+    def build_message(self, frame):
+        from aiocoap import Message
+        from aiocoap.numbers.optionnumbers import OptionNumber
+
+        m = Message(code=frame.code, payload=frame.payload)
+        m.token = frame.token
+        for n, raw in frame.options:
+            m.opt.add_option(OptionNumber(n).create_option(decode=raw))
+        return m
+
+    def out_one(self, role, frame, path, case, tag):
+        rt = self.rt
+        rep = self.rep
+        rig = Rig(self.env, role)
+        want = rt.encode(frame)
+        try:
+            m = self.build_message(frame)
+        except Exception as e:
+            rep.inconc("could not build an aiocoap Message for an outgoing case: %r" % e)
+            return
+        try:
+            if path == "pool":
+                m.remote = rig.conn
+                rig.pool.send_message(m, None)
+            else:
+                rig.conn._send_message(m)
+        except Exception as e:
+            rep.violation("outgoing/send-raises/%s" % type(e).__name__, "sending a representable message over TCP raised %r" % e, {"frame": rt.describe(frame), "path": path, "tb": rep.exception_witness(e)}, case)
+            return
+        got = bytes(rig.t.out[rig.csm_len :])
+        rep.monitor("outgoing_bytes")
+        L = len(rt.encode_body(frame.options, frame.payload))
+        rep.seen("body_lengths_sent", L if L in BODY_LENGTHS else -1)
+        outcome = "ok"
+        if got != want:
+            outcome = "violation"
+            key = "outgoing/bytes-differ"
+            detail = {}
+            try:
+                frames, rest = rt.decode_stream(got)
+            except rt.Malformed as e:
+                frames, rest = None, b""
+                detail["got_malformed"] = e.kind
+            if frames is not None and len(frames) == 1 and not rest:
+                g = frames[0]
+                if (g.code, g.token, g.payload) == (frame.code, frame.token, frame.payload):
+                    wc, gc = Counter(frame.options), Counter(g.options)
+                    if not (gc - wc) and (wc - gc):
+                        key = "outgoing/option-stripped/" + "+".join(str(n) for n in sorted({n for n, _ in (wc - gc)}))
+                detail["got_frame"] = rt.describe(g)
+            elif not got:
+                key = "outgoing/nothing-written"
+            else:
+                # the length field does not delimit the message that follows it
+                key = "outgoing/length-field-wrong/body-%s" % (L if L in BODY_LENGTHS else "other")
+            rep.violation(key, "bytes written for an outgoing message differ from the RFC 8323 3.2 serialisation", dict(detail, role=role, path=path, frame=rt.describe(frame), body_length=L, got_head=got[:24].hex(), want_head=want[:24].hex(), got_len=len(got), want_len=len(want)), case)
+        rep.case(("out", role, path, tag, frame.code >> 5, len(frame.token), lcls(L), min(len(frame.options), 4), outcome), nontrivial=bool(frame.options or frame.payload or frame.token))
+
+    def outgrid_one(self, role, L, tkl, mode, path):
+        rt = self.rt
+        r = self.rng("outgrid", L, tkl, mode)
+        opts, payload = body_for_length(rt, r, L, mode)
+        code = r.choice(REQ_CODES + RESP_CODES)
+        self.out_one(role, rt.Frame(code, r.randbytes(tkl), opts, payload), path, ["outgrid", role, L, tkl, mode, path], "grid")
+
+    def outrand_one(self, role, i):
+        rt = self.rt
+        r = self.rng("out", i)
+        k = r.random()
+        if k < 0.8:
+            it = gen_message(rt, r)
+        else:
+            it = gen_signal(rt, r, r.choice([rt.CSM, rt.PING, rt.PONG, rt.RELEASE, rt.ABORT]))
+        path = "pool" if (r.random() < 0.5 and it.kind in ("req", "resp")) else "conn"
+        self.out_one(role, it.frame, path, ["out", role, i], "rand")
+
+    def out_noresponse(self, role):
+        rt = self.rt
+        # a request carrying the No-Response option (RFC 7967), sent the way the token manager sends
+        self.out_one(role, rt.Frame(3, b"\x01\x02", ((11, b"actuator"), (258, b"\x1a")), b"on"), "pool", ["out-noresponse", role], "no-response")
+
+    def outgoing(self):
+        k = 0
+        for L in BODY_LENGTHS:
+            for tkl in (0, 8):
+                for mode in ("payload", "mixed", "options"):
+                    for path in ("conn", "pool"):
+                        for role in ("server", "client"):
+                            k += 1
+                            if self.mine(k):
+                                self.outgrid_one(role, L, tkl, mode, path)
+        n = 12 if self.quick else 1500
+        for j in range(n):
+            i = self.shard["index"] + j * self.shard["of"]
+            self.outrand_one("server" if i % 2 else "client", i)
+        if self.shard["index"] < 2:
+            self.out_noresponse(("server", "client")[self.shard["index"]])
